@@ -954,12 +954,99 @@ package consensus
 //@ spec msEnv(ms MidState) bool = msWF(ms) && (forall j in 0..len(ms.sces) :: types.u128(ms.sces[j].SiacoinElement.SiacoinOutput.Value) < EB) && (forall j in 0..len(ms.sfes) :: ms.sfes[j].SiafundElement.SiafundOutput.Value <= 10000) && fcsWFms(ms) && (forall id types.ElementID :: has(ms.elements, id) ==> ms.elements[id] < len(ms.v2fces)) && (forall j in 0..len(ms.v2fces) :: ms.v2fces[j].Revision != nil ==> types.u128(deref(ms.v2fces[j].Revision).RenterOutput.Value) + types.u128(deref(ms.v2fces[j].Revision).HostOutput.Value) < EB)
 //@ spec tsEnv(ts V1TransactionSupplement) bool = (forall j in 0..len(ts.SiacoinInputs) :: types.u128(ts.SiacoinInputs[j].SiacoinOutput.Value) < EB) && (forall j in 0..len(ts.SiafundInputs) :: ts.SiafundInputs[j].SiafundOutput.Value <= 10000) && fcsWFts(ts)
 
+//@ func (*MidState).createFileContractElement
+//@   trusted
+//@   modifies ms
+//@ func (*MidState).reviseFileContractElement
+//@   trusted
+//@   modifies ms
+//@ func (*MidState).resolveFileContractElement
+//@   trusted
+//@   modifies ms
+// ApplyBlock: both transaction lists are applied in order; the miner payouts and the Foundation
+// subsidy become immature outputs with the block-derived IDs; an expiring v1 contract that was
+// not resolved in the block is resolved as missed and pays its missed outputs.
+//@ func (State).FoundationSubsidy
+//@   abstract
+//@ func (*MidState).isSpent
+//@   abstract
+//@ func (*MidState).ApplyBlock
+//@   prop C01 C07
+//@   asserts-only
+//@   requires ms.base.Network != nil
+//@   at call:MidState.ApplyTransaction#1 assert @applies-each-v1-transaction $arg1 == txn && $arg1 == b.Transactions[i]
+//@   at call:MidState.ApplyV2Transaction#1 assert @applies-each-v2-transaction $arg1 == txn
+//@   at call:MidState.createImmatureSiacoinElement#1 assert @miner-payout $arg1 == bid.MinerOutputID(i) && $arg2 == sco
+//@   at call:MidState.createImmatureSiacoinElement#2 assert @foundation-subsidy $arg1 == bid.FoundationOutputID() && $arg2 == ms.base.FoundationSubsidy().0
+//@   at call:MidState.resolveFileContractElement#1 assert @expiry-resolves-missed $arg1.ID == fce.ID && $arg1.FileContract == fce.FileContract && !$arg2
+//@   at call:MidState.createImmatureSiacoinElement#3 assert @missed-payout $arg1 == fce.ID.MissedOutputID(i) && $arg2 == sco && $arg2 == fce.FileContract.MissedProofOutputs[i]
+// The v1 counterpart: parents are looked up in the MidState / supplement by the ID the input names.
 //@ func (*MidState).ApplyTransaction
+//@   prop C01 C07
+//@   asserts-only
+//@   requires msWF(*ms)
+//@   at call:MidState.spendSiacoinElement#1 assert @spends-named-parent $arg1.ID == sci.ParentID && $arg2 == txn.ID()
+//@   at call:MidState.createSiacoinElement#1 assert @creates-listed-output $arg1 == txn.SiacoinOutputID(i) && $arg2 == sco
+//@   at call:MidState.spendSiafundElement#1 assert @spends-named-parent $arg1.ID == sfi.ParentID && $arg2 == txn.ID()
+//@   at call:Currency.Mul64#1 assert @claim-formula types.u128($arg0) == (types.u128(ms.siafundTaxRevenue) - types.u128(sfe.ClaimStart)) / 10000 && $arg1 == sfe.SiafundOutput.Value
+//@   at call:MidState.createImmatureSiacoinElement#1 assert @claim-pays-exact-share $arg1 == sfi.ParentID.ClaimOutputID() && $arg2.Address == sfi.ClaimAddress && $arg2.Value == claimPortion
+//@   at call:MidState.createSiafundElement#1 assert @creates-listed-output $arg1 == txn.SiafundOutputID(i) && $arg2 == sfo
+//@   at call:MidState.createFileContractElement#1 assert @creates-listed-contract $arg1 == txn.FileContractID(i) && $arg2 == fc
+//@   at call:MidState.reviseFileContractElement#1 assert @applies-listed-revision $arg1.ID == fcr.ParentID && $arg2 == fcr.FileContract
+//@   at call:MidState.resolveFileContractElement#1 assert @proof-resolves-valid $arg1.ID == sp.ParentID && $arg2 && $arg3 == txn.ID()
+//@   at call:MidState.createImmatureSiacoinElement#2 assert @valid-proof-payout $arg1 == sp.ParentID.ValidOutputID(i) && $arg2 == fce.FileContract.ValidProofOutputs[i]
 //@   trusted
 //@   requires @validated ValidateTransaction(ms, txn, ts) == nil
 //@   modifies ms
 //@   ensures @assumed-env msEnv(*ms) && ms.base == old(ms.base)
+// What ApplyV2Transaction hands to the MidState mutators (the mutators themselves are assumed):
+// the elements it spends, creates, revises and resolves are exactly those the transaction names,
+// a siafund claim pays exactly (revenue - ClaimStart) / SiafundCount * Value to the claim
+// address, and a resolved contract pays out once: the final outputs on a renewal, the valid
+// outputs on a storage proof, the renter output and the missed host value on an expiration.
+//@ func (*MidState).spendSiacoinElement
+//@   trusted
+//@   modifies ms
+//@ func (*MidState).spendSiafundElement
+//@   trusted
+//@   modifies ms
+//@ func (*MidState).createSiacoinElement
+//@   trusted
+//@   modifies ms
+//@ func (*MidState).createImmatureSiacoinElement
+//@   trusted
+//@   modifies ms
+//@ func (*MidState).createSiafundElement
+//@   trusted
+//@   modifies ms
+//@ func (*MidState).createV2FileContractElement
+//@   trusted
+//@   modifies ms
+//@ func (*MidState).reviseV2FileContractElement
+//@   trusted
+//@   modifies ms
+//@ func (*MidState).resolveV2FileContractElement
+//@   trusted
+//@   modifies ms
+//@ func (*MidState).createAttestationElement
+//@   trusted
+//@   modifies ms
 //@ func (*MidState).ApplyV2Transaction
+//@   prop C01 C07
+//@   asserts-only
+//@   requires @decoded-txn-has-resolutions forall j in 0..len(txn.FileContractResolutions) :: !isnil(txn.FileContractResolutions[j].Resolution)
+//@   at call:MidState.spendSiacoinElement#1 assert @spends-named-parent $arg1.ID == sci.Parent.ID && $arg1.SiacoinOutput == sci.Parent.SiacoinOutput && $arg1.MaturityHeight == sci.Parent.MaturityHeight && $arg1.StateElement.LeafIndex == sci.Parent.StateElement.LeafIndex && $arg2 == txn.ID()
+//@   at call:MidState.createSiacoinElement#1 assert @creates-listed-output $arg1 == txn.SiacoinOutputID(txn.ID(), i) && $arg2 == sco
+//@   at call:MidState.spendSiafundElement#1 assert @spends-named-parent $arg1.ID == sfi.Parent.ID && $arg1.SiafundOutput == sfi.Parent.SiafundOutput && $arg1.ClaimStart == sfi.Parent.ClaimStart && $arg1.StateElement.LeafIndex == sfi.Parent.StateElement.LeafIndex && $arg2 == txn.ID()
+//@   at call:MidState.createImmatureSiacoinElement#1 assert @claim-pays-exact-share $arg1 == sfi.Parent.ID.V2ClaimOutputID() && $arg2.Address == sfi.ClaimAddress && types.u128($arg2.Value) == ((types.u128(ms.siafundTaxRevenue) - types.u128(sfi.Parent.ClaimStart)) / 10000) * sfi.Parent.SiafundOutput.Value
+//@   at call:MidState.createSiafundElement#1 assert @creates-listed-output $arg1 == txn.SiafundOutputID(txn.ID(), i) && $arg2 == sfo
+//@   at call:MidState.createV2FileContractElement#1 assert @creates-listed-contract $arg1 == txn.V2FileContractID(txn.ID(), i) && $arg2 == fc
+//@   at call:MidState.reviseV2FileContractElement#1 assert @applies-listed-revision $arg1.ID == fcr.Parent.ID && $arg1.V2FileContract == fcr.Parent.V2FileContract && $arg1.StateElement.LeafIndex == fcr.Parent.StateElement.LeafIndex && $arg2 == fcr.Revision
+//@   at call:MidState.resolveV2FileContractElement#1 assert @resolves-named-parent $arg1.ID == fcr.Parent.ID && $arg1.V2FileContract == fcr.Parent.V2FileContract && $arg1.StateElement.LeafIndex == fcr.Parent.StateElement.LeafIndex && $arg3 == txn.ID()
+//@   at call:MidState.createV2FileContractElement#2 assert @renewal-creates-new-contract $arg1 == fcr.Parent.ID.V2RenewalID() && $arg2 == asa(fcr.Resolution, V2FileContractRenewal).NewContract
+//@   at call:MidState.createImmatureSiacoinElement#2 assert @renter-payout $arg1 == fcr.Parent.ID.V2RenterOutputID() && $arg2 == (isa(fcr.Resolution, V2FileContractRenewal) ? asa(fcr.Resolution, V2FileContractRenewal).FinalRenterOutput : fcr.Parent.V2FileContract.RenterOutput)
+//@   at call:MidState.createImmatureSiacoinElement#3 assert @host-payout $arg1 == fcr.Parent.ID.V2HostOutputID() && $arg2.Address == (isa(fcr.Resolution, V2FileContractRenewal) ? asa(fcr.Resolution, V2FileContractRenewal).FinalHostOutput.Address : fcr.Parent.V2FileContract.HostOutput.Address) && $arg2.Value == (isa(fcr.Resolution, V2FileContractRenewal) ? asa(fcr.Resolution, V2FileContractRenewal).FinalHostOutput.Value : (isa(fcr.Resolution, V2StorageProof) ? fcr.Parent.V2FileContract.HostOutput.Value : fcr.Parent.V2FileContract.MissedHostValue))
+//@   at call:MidState.createAttestationElement#1 assert @creates-listed-attestation $arg1 == txn.AttestationID(txn.ID(), i) && $arg2 == a
 //@   trusted
 //@   requires @validated ValidateV2Transaction(ms, txn) == nil
 //@   modifies ms
